@@ -127,6 +127,19 @@ def check(ctx):
     ctx.ob("MPT-rank", rank, "unknown method -> raise", rank.node, not fall,
            "control cannot fall off the end of rank: unknown methods are rejected" if not fall else
            "rank can fall through and return None for an unknown method", clause="all rank methods")
+    # a zero-length result only for a zero-length receiver: every other exit ranks every element
+    R0 = rank.params[0]
+    empt = {f"{R0}.length == 0", f"len({R0}) == 0", f"not len({R0})", f"{R0}.size == 0", f"not {R0}.length", f"{R0}.length < 1"}
+    for r_ in [n for n in body_nodes(rank.node) if isinstance(n, ast.Return) and n.value is not None]:
+        lits = [c for c in ast.walk(r_.value) if isinstance(c, (ast.List, ast.Tuple)) and not c.elts]
+        if not lits:
+            continue
+        oke = any(k == "T" and t in empt for k, t in facts_at(rank, r_))
+        ctx.ob("MPT-rank", rank, f"return {norm(r_.value)} only when the vector is empty", r_, oke,
+               "the empty result belongs to the empty vector" if oke else
+               f"{norm(r_.value)} is returned under {[t for k, t in facts_at(rank, r_) if not t.startswith('iter:')][:2]}, which also holds for "
+               f"non-empty vectors (all elements missing): the rank has fewer elements than the vector, and a sort by that key loses every row "
+               f"or fails", clause="rank accepts entirely missing vectors; every element receives a rank")
     branches = [n for n in rank.node.body if isinstance(n, ast.If) and "method" in norm(n.test)]
     ctx.count("rank method branches", len(branches), 1)
     for br in branches:
